@@ -7,7 +7,15 @@ atoms: permutations / supersets of an ordering only change ids).  print_sized_li
 events (entries, result leaf).  For a symbolic total assignment the number of recorded rows covering it is 1 when the
 filter admits the diagram's value and 0 otherwise, and the covering row reports that value.  -v: the real MIR of
 print_true_vars_recursive with String concatenation / join / format! executed on concrete header names; the recorded lines
-must cover exactly the satisfying assignments, each once (k <= 2)."""
+must cover exactly the satisfying assignments, each once (k <= 2).
+
+Whole-program clause (maincore.py): the real MIR of `main` runs under one concrete command line at a time (-e / file /
+stdin, -t, -v, -m, -r, -f <unknown>, -b 1..3) with the formula a symbolic sketch; clap, the file system, the tokenizer
+and the parser are replaced by their contracts, the printing primitives by recorders.  Obligations over the recorded
+stdout: header = free variables in variable order, rows partition the assignment space as the filter says, -r lists the
+variables in variable order, -v is called on the evaluated diagram, the same for every -b N (each N is checked against
+the specification, not against N = 1), and - because the operation contracts rely on it - the unique table still holds
+both terminals and key == *value on entry of every evaluation, whatever main did to it in between."""
 import sys
 from runner import *   # noqa
 import props
@@ -15,6 +23,7 @@ import bddcore
 import printcore
 import c09
 import tokencore
+import maincore
 
 PID = 'C10'
 
@@ -27,12 +36,14 @@ def main():
         jobs.append(('model then print k=%d' % k, printcore.unit_print_model, (k, {})))
     for sh in [('bin', 'L', 'L'), ('q', 1, ('bin', 'L', 'L')), ('q', 2, ('bin', 'L', 'L')), ('q', 2, ('bin', 'L', ('bin', 'L', 'L'))), ('cc', ('L', 'L', 'L'))]:
         jobs.append(('constructor (header = free variables in variable order) %r k=3' % (sh,), c09.unit_constructor, (sh, 3, {})))
+    jobs += maincore.jobs_output(quick)
+    jobs.append(('<BDD as PartialEq>::eq on canonical diagrams k=3', bddcore.unit_bdd_eq, (3, {})))
     jobs.append(('selftest:rows for the false branch marked True', printcore.unit_print_table, (2, dict(mutate=('print_truth_table_recursive', '_13 = rsbdd::TruthTableEntry::False', '_13 = rsbdd::TruthTableEntry::True')))))
     rep = run_property(PID, lemma, ['and', 'or', 'not'], [],
                        bounds={'free_variables_k': '1..3 (4 thorough)', 'diagram': 'every function of k variables (unknown truth table)', 'filter': 'unknown: True / False / Any',
-                               'ids': 'symbolic atoms (orderings only change ids)', 'filter_spellings': 'from_str on an unknown string of <= 6 characters'},
-                       assumptions=props.COMMON_ASSUME + ['print_sized_line / println! replaced by a recorder of (entries, leaf) events: the text layout is not modelled'],
-                       uncovered=['padding / column widths / the header text itself', 'clap option parsing', 'equality of the three input channels (--evaluate, file, stdin) and -b N: whole-program I/O (the -b loop only repeats eval; history independence is C13)',
+                               'ids': 'symbolic atoms (orderings only change ids)', 'filter_spellings': 'from_str on an unknown string of <= 6 characters', 'main': 'command lines: {-e, file, stdin} x {-t, -v, -m, -r} x -f unknown x -b 1..3; formula sketches with 2 leaves / one quantifier over them (thorough: ite, nested, counting, fixed point, 2 binders), k <= 3 variables'},
+                       assumptions=props.COMMON_ASSUME + ['print_sized_line / print_header / println! replaced by recorders of (entries, leaf) / header / line events: the text layout is not modelled', 'main-level units: Args::parse_from returns the Args value of the configuration; File::open / stdin / BufReader are tagged sources; SymbolicBDD::tokenize and parse_formula are replaced by their contracts (sketch tokens / tree; C08, C11); Instant, eprintln!, print_performance_results are no-ops'],
+                       uncovered=['padding / column widths (print_sized_line / print_header are recorders)', 'clap option parsing itself (main starts from the Args value)', 'the bytes of the three input channels (main is checked to hand the channel the command line names to the parser; what the tokenizer reads from it is C08)', '-b N beyond 3',
                                   '-v (print_true_vars_recursive) beyond 2 free variables (the number of distinct outputs explodes)'],
                        extra_jobs=jobs)
     sys.exit(rep.finish())
